@@ -15,7 +15,7 @@ HBIN = os.path.join(_target_dir(), "release", "verif-harness")
 EVID = os.path.join(VERIF, "evidence")
 REPLAYS = os.path.join(VERIF, "replays")
 WORK = os.path.join(VERIF, "work")
-COQ_Q = ["-Q", "Ms", "Verif", "-Q", "Proofs", "Verif", "-Q", "Properties", "Verif", "-Q", "Tables", "Verif"]
+COQ_Q = ["-Q", "Script", "Verif", "-Q", "Ms", "Verif", "-Q", "Proofs", "Verif", "-Q", "Properties", "Verif", "-Q", "Tables", "Verif"]
 COQ_W = ["-w", "-notation-overridden,-deprecated-hint-without-locality,-deprecated-instance-without-locality"]
 
 ALLOWED_AXIOMS = {
